@@ -45,6 +45,11 @@ let fvals dt (l : z list) = fints (List.map (pv dt) l)
              model = spec is a theorem), otherwise the name of the finding class *)
 type outcome = { model : string; spec : string; cls : string }
 
+(* taint of the last case: the first step of a program whose named guard was NOT GOk, as
+   "<op>:<guard>" (printed as a 4th column; "" for kinds without guards).  After such a step the
+   run is outside the domain of the theorems even when nothing observable differs yet. *)
+let last_taint : string ref = ref ""
+
 (* handlers get the case fields and the implementation's observation (used only where the
    property leaves a choice open, e.g. which length-one axes a slice drops) *)
 let handlers : (string, string array -> string -> outcome) Hashtbl.t = Hashtbl.create 64
